@@ -134,6 +134,39 @@ def install_queue_shim():
     return done
 
 
+# ---------------------------------------------------------------------------
+# thread-creation faults: the operating system refuses a new thread ("can't start new thread")
+
+THREAD_FAULTS = {"budget": 0, "history": None, "installed": False}
+
+
+def install_thread_fault_shim():
+    """
+    Wraps threading._start_new_thread (what Thread.start calls in CPython 3.12): while a run has a fault budget,
+    starting a thread that is not one of the harness's own (names vf-*) raises RuntimeError exactly as CPython does
+    when pthread_create fails.  Independent of how the pool module imports threading.
+    """
+    if THREAD_FAULTS["installed"]:
+        return True
+    real = getattr(threading, "_start_new_thread", None)
+    if real is None:
+        return False
+
+    def start_new_thread(function, args, *rest):
+        owner = getattr(function, "__self__", None)
+        name = getattr(owner, "name", "")
+        if THREAD_FAULTS["budget"] > 0 and isinstance(owner, threading.Thread) and is_worker_name(name):
+            THREAD_FAULTS["budget"] -= 1
+            h = THREAD_FAULTS["history"]
+            if h is not None:
+                h.ev("thread_start_refused", thread=name)
+            raise RuntimeError("can't start new thread")
+        return real(function, args, *rest)
+    threading._start_new_thread = start_new_thread
+    THREAD_FAULTS["installed"] = True
+    return True
+
+
 def find_monitored_queue(pool):
     """The pool's task queue, found by type (no attribute name is assumed)."""
     for value in vars(pool).values():
@@ -373,6 +406,56 @@ def gen_program_start_under_load(rng):
     return prog
 
 
+def gen_program_thread_faults(rng):
+    """
+    A running pool whose next 1-3 worker-thread creations are refused by the operating system while tasks keep
+    arriving; then the fault is over, more tasks arrive (each may create a worker again), everything is awaited,
+    and the pool - quiescent again - must still grow to max_threads for a group of mutually dependent tasks.
+    Only the fault-free part after the refusals is judged for growth; start() itself is never disturbed.
+    """
+    maxt = rng.choice([1, 2, 2, 3])
+    mint = rng.randint(0, maxt)
+    prog = {"max": maxt, "min": mint, "timeout": rng.choice([0.005, 0.01, 0.02]), "queue_size": 0,
+            "controller": [], "enqueuers": [], "thread_faults": True}
+    ops = prog["controller"]
+    n = [0]
+    toks = []
+
+    def task(kind=None):
+        n[0] += 1
+        k = kind or rng.choice(["ret", "ret", "exc", "sleep"])
+        op = ["enq", "f%d" % n[0], k] + ([rng.choice([2, 5, 15])] if k == "sleep" else [])
+        toks.append(op[1])
+        return op
+    ops.append(["start"])
+    if rng.random() < 0.5:
+        for _ in range(rng.randint(1, 3)):
+            ops.append(task())
+        ops.append(["join", None])
+    if rng.random() < 0.7:
+        ops.append(["sleep", int(prog["timeout"] * 3000) + 5])     # surplus workers retire: growth will be needed
+    for rnd in range(rng.choice([1, 1, 2])):
+        ops.append(["failstart", rng.choice([1, 1, 2, 3])])
+        for _ in range(rng.randint(1, 4)):
+            ops.append(task())
+        ops.append(["failstart", 0])
+        for _ in range(maxt + rng.randint(0, 1)):
+            ops.append(task("ret"))
+        ops.append(["join", None])
+    for tok in toks[-3:]:
+        ops.append(["wait", tok])
+    r = rng.random()
+    if r < 0.4:
+        ops.append(["barrier", maxt])
+    elif r < 0.6:
+        ops.append(["stop"])
+        ops.append(["start"])
+        ops.append(["barrier", maxt])
+    elif r < 0.8:
+        ops.append(["sample"])
+    return prog
+
+
 # ---------------------------------------------------------------------------
 # running a program against the real ThreadPool
 
@@ -504,6 +587,11 @@ class PoolRun(object):
                         g.event.set()
                 elif k == "go":
                     self.go[op[1]].set()
+                elif k == "failstart":
+                    # the next op[1] worker-thread creations are refused by the "operating system" (0 = fault over)
+                    THREAD_FAULTS["history"] = h
+                    THREAD_FAULTS["budget"] = op[1]
+                    h.ev("thread_faults", budget=op[1])
                 elif k == "sample":
                     if self.running:
                         # idle sample: let idle timeouts expire, then count live workers
@@ -516,6 +604,7 @@ class PoolRun(object):
             self.error = "controller: " + "".join(traceback.format_exception(type(ex), ex, ex.__traceback__))[-800:]
             h.ev("controller_error", exc=type(ex).__name__)
         finally:
+            THREAD_FAULTS["budget"] = 0
             for g in self.go:
                 g.set()
 
@@ -616,7 +705,7 @@ class PoolRun(object):
         if not ok:
             self.abandon.set()
             self.release_all.set()
-            h.ev("abandoned", what=self.frozen["what"])
+            h.ev("abandoned", what=self.frozen["what"], alive=[t.name for t in self.workers_alive()])
             return self.finish()
         h.ev("program_done")
         # ---- epilogue: restart if stopped, release everything, drain, probe growth, stop
@@ -633,6 +722,8 @@ class PoolRun(object):
         started = lambda: all_ended(h, must)  # noqa
         drained = self.wait_progress(started, "drain")
         h.ev("drain_end", ok=drained)
+        if not drained:
+            h.ev("abandoned", what="drain", alive=[t.name for t in self.workers_alive()])
         if drained and growth_probe and not self.frozen:
             self.release_all.clear()
             self.do_barrier(prog["max"], "g")
@@ -884,6 +975,36 @@ def check_c10(events, prog):
     for seq, f in ix["barriers"]:
         if not f["opened"]:
             out.append(("dependent-tasks-deadlocked", {"n": f["n"], "max": maxt, "toks": f["toks"]}))
+    # frozen state (nothing moved for 1.5 s, every gate released) of a running pool: a task still queued while fewer
+    # than max_threads tasks execute means an idle worker exists or fewer than max_threads workers exist
+    for seq, kind, ident, f in events:
+        if kind != "abandoned" or f.get("what") not in ("program", "drain"):
+            continue
+        running = False
+        faults = 0
+        inside = 0
+        queued = []
+        for s2, k2, _, f2 in events:
+            if s2 >= seq:
+                break
+            if k2 == "start_ret":
+                running = True
+            elif k2 == "stop_call":
+                running = False
+            elif k2 == "thread_faults":
+                faults = f2["budget"]
+            elif k2 == "task_start":
+                inside += 1
+            elif k2 == "task_end":
+                inside -= 1
+            elif k2 == "q_put" and f2.get("tok") not in (None, "<sentinel>", "?"):
+                queued.append(f2["tok"])
+            elif k2 == "q_get" and f2.get("tok") in queued:
+                queued.remove(f2["tok"])
+        if running and not faults and queued and inside < maxt:
+            out.append(("waiting-task-not-started-below-max_threads",
+                        {"queued": queued[:5], "executing": inside, "max": maxt, "live_workers": f.get("alive"),
+                         "frozen": f["what"]}))
     return out, {"peak_running": peak, "workers_seen": len(ix["workers"])}
 
 
